@@ -17,13 +17,16 @@ META = dict(
     not_covered=[
         'ndarray x ndarray branch of detail::isequal (dim/size compared only by nmtools_cassert; same pattern as the recorded defect, not instantiated here)',
         'isclose / isequal on multi-dimensional arrays and views (ndindex over rank > 1), nested arrays',
-        'either / tuple alternatives, slice and attribute operands, none/ellipsis, integral constants, dtype comparison',
+        'either alternatives other than numbers (index arrays / ndarrays inside an either), tuple alternatives, slice and attribute operands, none/ellipsis, integral constants, dtype comparison',
         'mixed-signedness scalars (compared after the usual arithmetic conversions: isequal(-1, SIZE_MAX) is true)',
         'NMTOOLS_ISCLOSE_NAN_HANDLING / INF_HANDLING configurations; builds without NDEBUG (asserts abort instead of returning false)',
         'compile-time (constexpr / type-level) operands',
     ],
 )
 UNITS = [
+    Unit('isequal.either_num', 'c18', 'verif_isequal_either_num', mode='bp', clause='either operands are compared alternative-by-alternative (either vs plain)'),
+    Unit('isequal.num_either', 'c18', 'verif_isequal_num_either', mode='bp', clause='either operands: symmetric (plain vs either)'),
+    Unit('isequal.either_either', 'c18', 'verif_isequal_either_either', mode='bp', clause='two eithers are equal iff they hold the same alternative with equal values'),
     Unit('isequal.sv_sv', 'c18', 'verif_isequal_sv', unwind=10, clause='index arrays: true exactly when same length and all elements equal; symmetric; result independent of storage outside [0,len)'),
     Unit('isequal.refl', 'c18', 'verif_isequal_refl', unwind=10, clause='reflexive'),
     Unit('isequal.sv_arr3', 'c18', 'verif_isequal_sv_arr', unwind=10, clause='bounded vs fixed index array'),
